@@ -503,6 +503,10 @@ def b_next(c):
 def apply_builtin(w, e, name, args, kwargs, s):
     import builtins as _b
 
+    if args and isinstance(args[0], tuple) and len(args[0]) == 3 and args[0][0] == "gen" and not kwargs:
+        r = _builtin_over_generator(w, e, name, args, s)
+        if r is not None:
+            return r
     fn = BUILTINS.get(name)
     c = Ctx(w, e, "builtin:" + name, args, kwargs, s)
     if fn is None:
@@ -515,10 +519,88 @@ def apply_builtin(w, e, name, args, kwargs, s):
     return c.outs
 
 
+def _builtin_over_generator(w, e, name, args, s):
+    """list / tuple / set / dict / sorted / next / any / all applied to a generator object of a
+    repository generator function: the generator is run in place"""
+    gen = args[0]
+    if name in ("list", "tuple", "set", "frozenset", "dict", "sorted") and len(args) == 1:
+        kind = {"list": "list", "tuple": "list", "sorted": "list", "set": "set", "frozenset": "set", "dict": "dict"}[name]
+        outs = []
+        for s2, k2, p2 in w._collect_generator(gen, s, e, kind):
+            if k2 == "val" and name in ("tuple", "sorted", "frozenset"):
+                p2 = CallT("builtin:" + name, [p2])
+            outs.append((s2, k2, p2))
+        return outs
+    if name == "next" and len(args) in (1, 2):
+        outs = []
+        for s2, k2, p2 in w._run_generator(gen, s, lambda s_c, v: [(s_c, "break", v)], e):
+            if k2 == "break":
+                outs.append((s2, "val", p2))
+            elif k2 == "exhausted":
+                if len(args) == 2:
+                    outs.append((s2, "val", args[1]))
+                else:
+                    w.rz(outs, s2, e, "StopIteration", "next() of an exhausted generator", [])
+            else:
+                outs.append((s2, k2, p2))
+        return outs
+    if name in ("any", "all") and len(args) == 1:
+        stop_on = "true" if name == "any" else "false"
+
+        def on_yield(s_c, v):
+            res = []
+            for s1, k1, p1 in w.truth(v, s_c):
+                if k1 == stop_on:
+                    res.append((s1, "break", None))
+                elif k1 in ("true", "false"):
+                    res.append((s1, "fall", None))
+                else:
+                    res.append((s1, k1, p1))
+            return res
+
+        outs = []
+        for s2, k2, p2 in w._run_generator(gen, s, on_yield, e):
+            if k2 == "break":
+                outs.append((s2, "val", C(name == "any")))
+            elif k2 == "exhausted":
+                outs.append((s2, "val", C(name != "any")))
+            else:
+                outs.append((s2, k2, p2))
+        return outs
+    return None
+
+
+class _ModOnly:
+    def __init__(self, mod):
+        self.mod = mod
+
+
 def apply_new(w, e, cls_qualname, args, kwargs, s):
     """instantiation of a repo class"""
     c = Ctx(w, e, "new:" + cls_qualname, args, kwargs, s)
     short = cls_qualname.split(".")[-1]
+    ci = w.prog.classes.get(cls_qualname)
+    if ci is not None and ci.is_namedtuple:
+        # typing.NamedTuple: the instance is the tuple of its fields
+        fields = ci.nt_fields()
+        names = [n for n, _d in fields]
+        vals = dict(zip(names, args))
+        if len(args) > len(names):
+            c.rz("TypeError", "too many arguments for %s" % short)
+            return c.outs
+        for n, v in kwargs:
+            if n not in names or n in vals:
+                c.rz("TypeError", "unexpected or repeated field %s for %s" % (n, short))
+                return c.outs
+            vals[n] = v
+        for n, d in fields:
+            if n not in vals:
+                if d is None:
+                    c.rz("TypeError", "missing field %s for %s" % (n, short))
+                    return c.outs
+                vals[n] = w.eng.default_term(_ModOnly(ci.mod), d)
+        c.ret(("nt", cls_qualname, tuple(vals[n] for n in names)))
+        return c.outs
     if short in w.prog.exc_parents():
         c.ret(("excobj", short), pure=False)
     else:
@@ -778,6 +860,81 @@ def x_fsmut(c):
     s1 = c.s.copy()
     s1.ev("fs-mutation", c.site, c.callee, tuple(c.args))
     c.ret(None, pure=False, state=s1)
+
+
+@ext("functools.partial")
+def x_partial(c):
+    """functools.partial(f, *args, **kwargs): a value that the call machinery unfolds when called"""
+    if not c.args:
+        c.rz("TypeError", "partial() without a callable")
+        return
+    c.ret(("partial", c.args[0], tuple(c.args[1:]), tuple(c.kwargs)))
+
+
+@ext("operator.itemgetter", "operator.attrgetter", "operator.methodcaller")
+def x_operator_factory(c):
+    """operator.itemgetter(k...) / methodcaller(name, ...) : unfolded when the result is called"""
+    c.ret(("partial", G(c.callee), tuple(c.args), tuple(c.kwargs)))
+
+
+def _apply_subscript(c, base, key):
+    """outcomes of base[key] evaluated with the walker's own subscript rules"""
+    import ast as _ast
+
+    node = _ast.Subscript(value=_ast.Name(id="$opbase", ctx=_ast.Load()), slice=_ast.Name(id="$opkey", ctx=_ast.Load()), ctx=_ast.Load())
+    for x in _ast.walk(node):
+        _ast.copy_location(x, c.e)
+    s = c.s.copy()
+    s.env = dict(s.env)
+    s.env["$opbase"], s.env["$opkey"] = base, key
+    outs = []
+    for s2, k2, p2 in c.w.expr(node, s):
+        s2.env.pop("$opbase", None)
+        s2.env.pop("$opkey", None)
+        outs.append((s2, k2, p2))
+    return outs
+
+
+@ext("operator.getitem")
+def x_operator_getitem(c):
+    if len(c.args) != 2:
+        c.rz("TypeError", "operator.getitem() takes two arguments")
+        return
+    c.outs.extend(_apply_subscript(c, c.args[0], c.args[1]))
+
+
+@ext("operator.truth", "operator.not_")
+def x_operator_truth(c):
+    if len(c.args) != 1:
+        c.rz("TypeError", "operator.truth() takes one argument")
+        return
+    neg = c.callee.endswith("not_")
+    for s2, k2, _p in c.w.truth(c.args[0], c.s):
+        c.outs.append((s2, "val", C((k2 == "true") != neg)))
+
+
+@ext("functools.reduce")
+def x_reduce(c):
+    """reduce(f, <literal display>, init): unfolded left to right"""
+    from .terms import is_lit as _is_lit
+
+    if len(c.args) == 3 and _is_lit(c.args[1]) and c.args[1][1] in ("tuple", "list") and len(c.args[1][2]) <= 8:
+        from .calls import call_value
+
+        cur = [(c.s, c.args[2])]
+        for item in c.args[1][2]:
+            nxt = []
+            for s1, acc in cur:
+                for s2, k2, p2 in call_value(c.w, c.e, c.args[0], (acc, item), (), s1):
+                    if k2 == "val":
+                        nxt.append((s2, p2))
+                    else:
+                        c.outs.append((s2, k2, p2))
+            cur = nxt
+        for s1, acc in cur:
+            c.outs.append((s1, "val", acc))
+        return
+    return unknown_callable(c, "functools.reduce over a non-literal sequence")
 
 
 @ext("functools.*", "itertools.*", "operator.*", "collections.*", "typing.*")
